@@ -188,18 +188,60 @@ func (p *endingProvider) Subscribe(ctx context.Context, sub sse.Subscription) er
 // recReplayer records, in Joe's order, the messages as stored (with their final IDs).
 type recReplayer struct {
 	sse.Replayer
-	mu  sync.Mutex
-	log []*sse.Message
+	mu   sync.Mutex
+	log  []*sse.Message
+	said []string // what each stored message said when it was handed to Put (its wire form then, before an ID was generated)
 }
 
 func (r *recReplayer) Put(m *sse.Message, topics []string) (*sse.Message, error) {
+	txt := m.String()
 	out, err := r.Replayer.Put(m, topics)
 	if err == nil && out != nil {
 		r.mu.Lock()
 		r.log = append(r.log, out)
+		r.said = append(r.said, txt)
 		r.mu.Unlock()
 	}
 	return out, err
+}
+
+// specEvent: the event a conforming client makes of one message's wire form, by the WHATWG algorithm written out here
+// (not through the library's own reader): lines end at CRLF, CR or LF; a line starting with ':' is a comment; the field
+// name ends at the first ':', one leading space of the value is dropped; data lines are joined with LF
+func specEvent(text, id string) sse.Event {
+	var data []string
+	typ := ""
+	line := func(l string) {
+		if l == "" || l[0] == ':' {
+			return
+		}
+		name, val := l, ""
+		if i := strings.IndexByte(l, ':'); i >= 0 {
+			name, val = l[:i], l[i+1:]
+			val = strings.TrimPrefix(val, " ")
+		}
+		switch name {
+		case "data":
+			data = append(data, val)
+		case "event":
+			typ = val
+		}
+	}
+	start := 0
+	for i := 0; i < len(text); i++ {
+		switch text[i] {
+		case '\n':
+			line(text[start:i])
+			start = i + 1
+		case '\r':
+			line(text[start:i])
+			if i+1 < len(text) && text[i+1] == '\n' {
+				i++
+			}
+			start = i + 1
+		}
+	}
+	return sse.Event{LastEventID: id, Type: typ, Data: strings.Join(data, "\n")}
 }
 
 var e2ePayloads = []string{"x", "hello world", "a\nb", "a\r\nb\rc", "", "\n", "é日本", "data: y", "id: 99", ": not a comment", "  spaced  ",
@@ -429,6 +471,9 @@ func runE2Einner(args []string) string {
 	pauses := make([]time.Duration, nmsgs)
 	// one scenario in seven builds its events from a shared template (three data lines: spare capacity for a fourth):
 	// Clone, one more data line, the ID — what each event says when it is built is what must be published
+	relayMode := autoIDs && !bigMode && seed%6 == 2
+	relay := &sse.Message{}
+	var relayMu sync.Mutex
 	tmplMode := !bigMode && seed%7 == 3
 	template := &sse.Message{}
 	template.AppendData("template line 1", "template line 2", "template line 3")
@@ -459,7 +504,20 @@ func runE2Einner(args []string) string {
 					pubErr.Store(fmt.Sprintf("event %d no longer says what it said when it was built: %q, built as %q", i, now, texts[i]))
 					return
 				}
-				if err := server.Publish(msgs[i], pubTopics...); err != nil {
+				toPublish := msgs[i]
+				if relayMode {
+					// a relay: every event is decoded into one reused Message and published from there (with automatic IDs
+					// the replayer keeps a copy of its own)
+					relayMu.Lock()
+					if err := relay.UnmarshalText([]byte(texts[i])); err == nil {
+						toPublish = relay
+					} // (a message without any field has no text to decode: it is published as it is)
+				}
+				err := server.Publish(toPublish, pubTopics...)
+				if relayMode {
+					relayMu.Unlock()
+				}
+				if err != nil {
 					pubErr.Store(fmt.Sprintf("publish %d: %v", i, err))
 					return
 				}
@@ -511,11 +569,14 @@ wait:
 	mu.Unlock()
 	rec.mu.Lock()
 	stored := append([]*sse.Message(nil), rec.log...)
+	said := append([]string(nil), rec.said...)
 	rec.mu.Unlock()
 
+	// what must arrive: for every stored message the event of what it said when it was published, under the ID it was
+	// stored with — worked out by specEvent, not by the library's own reader
 	var want []sse.Event
-	for _, m := range stored {
-		want = append(want, expectedEvents(m)...)
+	for i, m := range stored {
+		want = append(want, specEvent(said[i], m.ID.String()))
 	}
 	e2eObs = " ## pub=" + idsOf(want) + " ## got=" + idsOf(got)
 	stats := fmt.Sprintf("msgs=%d received=%d sessions=%d cuts=%d ends=%d resumed=%d", len(stored), len(got), prov.sessions.Load(), cuts.Load(), prov.ends.Load(), prov.resumed.Load())
